@@ -311,7 +311,7 @@ def commitWrite (H : HashFn) (w : World) (l : Loaded) (id data msg : Bytes) (tz 
     let w2 := { w1 with heads := aset w1.heads l.ref (hashStr id) }
     let line := recLine l .commit frm (some id) (clock ts 1) tz msg
     let w3 := appendLogBranch (appendLogHead w2 line) l.ref line
-    if w3.head.isNone then (w3, .err) else (setHead w3 l.ref, .ok none)
+    if w.head.isNone then (w3, .err) else (setHead w3 l.ref, .ok none)      -- `Head.Update` needs the HEAD file (w3.head = w.head)
 
 def commitCmd (H : HashFn) (w : World) (l : Loaded) (msg : Bytes) (tz : Int) (ts : List Int) : World × Out :=
   let snapR : Res (Option (List Entry)) :=
